@@ -1,5 +1,6 @@
 """C07 -- data-class instances stay valid under every sequence of mutations"""
-from typing import Final
+from decimal import Decimal
+from typing import Final, Union
 
 from utype import DataClass, Field, Options, Schema, exc
 from vt.ob import ob
@@ -82,6 +83,7 @@ class K8(Schema):
     __options__ = Options(collect_errors=True)
     o: int = Field(ge=0, required=False)
     d: int = Field(ge=0, default=5)
+    n: int = Field(alias='N1', ge=0, required=False)      # key and attribute name differ
 
     @property
     @Field(dependencies=['o'])
@@ -119,7 +121,8 @@ SPEC = {
            ['r', 'o', 'd', 'zz']),
     'K7': (K7, {'a': ('A1', True, False, False), 'h': ('h', False, False, True), 'b': ('b', False, False, False),
                 'key': ('key', True, False, True)}, ['a', 'A1', 'h', 'b', 's', 'key', 'zz']),
-    'K8': (K8, {'o': ('o', False, False, False), 'd': ('d', False, False, False)}, ['o', 'd', 't', 'u', 'zz']),
+    'K8': (K8, {'o': ('o', False, False, False), 'd': ('d', False, False, False), 'n': ('N1', False, False, False)},
+           ['o', 'd', 'n', 'N1', 't', 'u', 'zz']),
     'K3': (K3, {'inner': ('inner', True, False, False), 'n': ('n', False, False, False), 'opt': ('opt', False, False, False)},
            ['inner', 'n', 'opt', 'zz']),
 }
@@ -173,6 +176,8 @@ def build(V, name, tag=''):
             kw['d'] = V.int(tag + 's_d', 0, None)
         else:
             absent.append('d')
+        if V.bool(tag + 's_has_n'):
+            kw['n'] = V.int(tag + 's_n', 0, 3)
     elif name in ('K5', 'K6'):
         kw['r'] = V.int(tag + 's_r', 0, None)
         if V.bool(tag + 's_has_o'):
@@ -465,3 +470,61 @@ def dataclass_attrs(V):
     V.check('r' in after, 'dc:required-missing', det)
     V.check(all(ok_int(x) for x in after.values()), 'dc:nonconforming', det)
     V.check(after.get('im') == before.get('im'), 'dc:immutable-changed', det)
+
+
+# ------------------------------------------------------------------ equal but distinguishable values
+class K9(Schema):
+    amount: Decimal = Field(ge=0, default=Decimal('1.50'))
+    flag: Union[bool, int] = 1
+
+    @property
+    @Field(dependencies=['amount'])
+    def shown(self) -> str:
+        return str(self.amount)
+
+    @property
+    @Field(dependencies=['flag'])
+    def kind(self) -> str:
+        return type(self.flag).__name__
+
+
+AMOUNTS = [Decimal('1.5'), Decimal('1.50'), Decimal('1.500'), '1.5', 2, Decimal('2.0'), 'x', -1]
+FLAGS = [1, True, 0, False, 2]
+
+
+@ob('step/K9/equal-values', marks=['applied', 'raised'], budget=(40, 120),
+    bounds='Schema with a Decimal field and a Union[bool, int] field, each with a dependent property that renders what == cannot see '
+           '(the number of decimal places; bool vs int); initial values and the assigned value picked from equal-but-distinguishable '
+           'spellings (1.5 / 1.50 / 1.500, 1 / True, 0 / False) and invalid ones; setattr / setitem / update / |=: afterwards the property '
+           'renders the stored value')
+def k9_equal_values(V):
+    field = V.pick('field', ['amount', 'flag'])
+    vals = AMOUNTS if field == 'amount' else FLAGS
+    init = V.pick('init', [v for v in vals if v not in ('x', -1)])
+    inst = K9(**{field: init})
+    v = V.pick('value', vals)
+    op = V.pick('op', ['setattr', 'setitem', 'update', 'ior'])
+    before = dict(inst)
+    raised = None
+    try:
+        if op == 'setattr':
+            if field == 'amount':
+                inst.amount = v
+            else:
+                inst.flag = v
+        elif op == 'setitem':
+            inst[field] = v
+        elif op == 'update':
+            inst.update({field: v})
+        else:
+            inst |= {field: v}
+    except Exception as e:  # noqa
+        raised = e
+    after = dict(inst)
+    det = lambda: 'K9 %r ; %s(%s, %r) %s ; after %r' % (before, op, field, v, type(raised).__name__ if raised else 'ok', after)
+    if raised:
+        V.check(after == before and str(after) == str(before), 'step:raised-but-changed', det)
+        V.cover('raised')
+    else:
+        V.cover('applied')
+    V.check(after['shown'] == str(after['amount']) and after['kind'] == type(after['flag']).__name__, 'step:dependant-stale:equal-value', det)
